@@ -25,6 +25,7 @@ class Spec:
         self.ensures = collections.OrderedDict()
         self.ensures_exc = collections.OrderedDict()
         self.stub_only = collections.OrderedDict()
+        self.derived = collections.OrderedDict()     # name -> (expr, lemma): assumed by callers, justified by a lemma over proved obligations
         self.old = collections.OrderedDict()
         self.raises = None
         self.assigns = []
@@ -91,6 +92,9 @@ def load_specs(directory):
                     sp.ensures[opt[8:]] = val
                 elif opt.startswith('ensures_exc.'):
                     sp.ensures_exc[opt[12:]] = val
+                elif opt.startswith('derived.'):
+                    ex_, _, by = val.partition('::')
+                    sp.derived[opt[8:]] = (ex_.strip(), by.strip())
                 elif opt.startswith('stub_only.'):
                     sp.stub_only[opt[10:]] = val
                 elif opt.startswith('old.'):
